@@ -12,7 +12,7 @@ MSPriorityQueue half (this file):
 FCPriorityQueue half: checks/C11fc.py (run_fc), owned by the flat-combining work, called when present.
 """
 import os, sys, json, hashlib
-import vcheck, conc_check
+import vcheck, conc_check, conc_windows
 
 try:
     import C11fc
@@ -131,6 +131,162 @@ def finish_phase_schedules(ctx, model, cases):
         c["push_phase_steps"] = len(choices)
         c["sched"] = choices + c["tail"]
         del c["probe"]
+
+
+# ---------------------------------------------------------------------------------------------------
+# model-guided window schedules (lib/conc_windows.py).  Writes are the exchanges that take a lock (m_Lock, a heap
+# node) and the stores that release one; tags and values are plain fields written inside those steps.
+#
+# PUSH templates: thread 0 pushes the set-up items, then 2-3 pushers run concurrently under window schedules: the victim
+# is stalled right before each of its writes (in particular after it tagged its slot with its thread id and released the
+# node: its item is IN FLIGHT), the actor is run to the end of each of its operations, and - when it has to wait for
+# the victim's in-flight item, which is what the unchanged code does - for a few more run lengths (a pusher that no
+# longer waits uses these steps to swap with the in-flight item and go on); then r victim steps, the others, the rest.
+# The insertion slots follow the bit-reversed counter (insertions 1,2,3,4,5,6,7 -> slots 1,2,3,4,6,5,7), so a pusher on
+# the same heap path as the 2nd insertion (slot 2) is the 4th or the 6th one; the lower pusher's priority is larger
+# than the upper in-flight one, and two more pushes follow so that a stranded item is not the bottom node at the next pop.
+# Every such case P (pushers only: the harness' sequential drain must come out in priority order) is run on the real
+# code first; its exact sequence of thread choices, followed by a pop-only phase of one more thread, is the case Q: the
+# pops start after every push has returned, so the history has no push/pop overlap and the verified lincheck decides it.
+# POP templates: thread 0 pushes everything (set-up prefix), then 2-4 poppers run concurrently under window schedules
+# (victim stalled before each lock / unlock of its sift-down, actor through its writes): no push overlaps a pop either.
+# (capacity, set-up priorities, priorities pushed by each pusher, pops of the final phase (None = all, k = all but k))
+WINDOW_PUSH_TEMPLATES = [
+    (7,  [7],       [[10], [1, 20, 2, 3]], None),             # slots 2 and 4 (the 2nd and the 4th insertion), 20 > 10 in flight
+    (7,  [7],       [[1, 20, 2, 3], [10]], 1),                # the same with the roles of the set-up thread swapped
+    (7,  [7],       [[10], [1, 20], [2, 3]], None),           # three pushers
+    (7,  [7],       [[10], [1, 0, 2, 20, 3]], None),          # slots 2 and 5 (the 6th insertion)
+    (15, [9, 8, 7], [[10], [1, 2, 0, 20, 3, 4]], 2),          # one level down: slots 4 and 8
+    (7,  [7],       [[10], [1, 10, 2, 3]], None),             # equal priorities on the path
+    (3,  [5],       [[6], [7]], None),                        # both children of the root
+    (7,  [1],       [[5], [2, 9, 3, 4], [8]], None),          # the in-flight item itself has to move to the root
+    (15, [3],       [[10, 11], [1, 20, 2, 30, 4, 5]], 3),     # two operations of the upper pusher
+]
+WINDOW_POP_TEMPLATES = [
+    (7,  [7, 10, 1, 20, 2, 3],               [1, 1, 1]),      # (capacity, set-up priorities, pops per popper)
+    (7,  [5, 5, 5, 4, 4, 6],                 [2, 2]),
+    (15, [9, 8, 7, 10, 1, 2, 0, 20, 3, 4],   [2, 1, 2]),
+    (3,  [1, 2, 3],                          [1, 1, 1, 1]),
+]
+# MIXED templates: after the set-up, pushers and poppers run concurrently under window schedules (a pop moves a
+# pusher's in-flight item up / takes it as the bottom node; a pusher finds its parent Empty).  Push and pop overlap, so
+# these histories are decided by the conservation / failed-push / quiescent-drain-order / crash / hang monitors only.
+# (capacity, set-up priorities, operations per thread: a number = push of that priority, "P" = pop)
+WINDOW_MIXED_TEMPLATES = [
+    (7, [7, 5],       [[10], ["P"], ["P"]]),
+    (7, [7, 5, 6],    [[1, 9], ["P", "P"]]),
+    (3, [5],          [[6], ["P"], [7]]),
+    (7, [7, 5, 6, 4], [[9, 8], ["P"], ["P", 3]]),
+    (7, [3],          [[4, "P"], [5, "P"], ["P", 6]]),
+]
+WINDOW_KINDS = ("xchg", "st")
+WINDOW_PER_TEMPLATE = 20
+WINDOW_PER_TEMPLATE_THOROUGH = 80      # per template and variant (3 variants); a seeded subsample of the enumeration, whose size is recorded
+
+
+def gen_window_cases(ctx, model, rng, quick):
+    """-> (push-phase cases P, pop-phase cases, info); P cases carry 'pops' (number of pops of the final phase)"""
+    wdir = os.path.join(ctx.work, "wprobe")
+    os.makedirs(wdir, exist_ok=True)
+    info = {"push_templates": len(WINDOW_PUSH_TEMPLATES), "pop_templates": len(WINDOW_POP_TEMPLATES), "enumerated": 0, "model_probes": 0}
+    P = []; R = []
+    variants = [0, 1, 4]
+    for ti, (cap, setup, pushers, pops) in enumerate(WINDOW_PUSH_TEMPLATES):
+        for variant in ([(ctx.seed + ti) % 5] if quick else variants):
+            cfg = [cap, LOCK_FUEL, HEAP_FUEL, variant]
+            nid = [0]
+            def item(p):
+                nid[0] += 1
+                return [1, p, nid[0]]
+            su = [item(p) for p in setup]
+            ths = [[item(p) for p in th] for th in pushers]
+            total = len(setup) + sum(len(th) for th in pushers)
+            tag = "wp%d_%d" % (ti, variant)
+            threads, sw, inf = conc_windows.windows(model, wdir, cfg, ths, setup=su, kinds=WINDOW_KINDS, actor_stops="ops" if quick else "both",
+                                                    actor_extra=(12, 24, 40, 70), rs=(0, 2, 4, 8) if quick else (0, 1, 2, 4, 6, 9),
+                                                    third=len(ths) > 2, max_actor=8 if quick else 12, max_stalls=12 if quick else 16, finish_rounds=40, tag=tag, fuel=600)
+            info["enumerated"] += len(sw); info["model_probes"] += inf["model_probes"]
+            for name, sched in conc_windows.subsample(rng, sw, WINDOW_PER_TEMPLATE if quick else WINDOW_PER_TEMPLATE_THOROUGH):
+                P.append({"id": "%s_%s" % (tag, name), "cfg": cfg, "threads": threads, "sched": sched, "kind": "window-push",
+                          "pops": total if pops is None else max(1, total - pops)})
+    for ti, (cap, setup, pops) in enumerate(WINDOW_POP_TEMPLATES):
+        for variant in ([(ctx.seed + ti + 2) % 5] if quick else variants):
+            cfg = [cap, LOCK_FUEL, HEAP_FUEL, variant]
+            su = [[1, p, k + 1] for k, p in enumerate(setup)]
+            ths = [[[2] for _ in range(n)] for n in pops]
+            tag = "wq%d_%d" % (ti, variant)
+            threads, sw, inf = conc_windows.windows(model, wdir, cfg, ths, setup=su, kinds=WINDOW_KINDS, max_stalls=14, max_actor=10,
+                                                    rs=(0, 1, 3, 6) if quick else (0, 1, 2, 3, 4, 6, 9), third=not quick and len(ths) > 2, finish_rounds=40, tag=tag, fuel=600)
+            info["enumerated"] += len(sw); info["model_probes"] += inf["model_probes"]
+            for name, sched in conc_windows.subsample(rng, sw, WINDOW_PER_TEMPLATE if quick else WINDOW_PER_TEMPLATE_THOROUGH):
+                R.append({"id": "%s_%s" % (tag, name), "cfg": cfg, "threads": threads, "sched": sched, "kind": "window-pop"})
+    info["mixed_templates"] = len(WINDOW_MIXED_TEMPLATES)
+    for ti, (cap, setup, tpl) in enumerate(WINDOW_MIXED_TEMPLATES):
+        for variant in ([(ctx.seed + ti + 3) % 5] if quick else variants):
+            cfg = [cap, LOCK_FUEL, HEAP_FUEL, variant]
+            nid = [0]
+            def op(x):
+                if x == "P":
+                    return [2]
+                nid[0] += 1
+                return [1, x, nid[0]]
+            su = [op(x) for x in setup]
+            ths = [[op(x) for x in th] for th in tpl]
+            tag = "wm%d_%d" % (ti, variant)
+            threads, sw, inf = conc_windows.windows(model, wdir, cfg, ths, setup=su, kinds=WINDOW_KINDS, max_stalls=8 if quick else 12, max_actor=5 if quick else 8, actor_stops="both",
+                                                    actor_extra=(12, 30), rs=(0, 3, 6) if quick else (0, 1, 3, 6, 9), third=len(ths) > 2,
+                                                    finish_rounds=40, tag=tag, fuel=600)
+            info["enumerated"] += len(sw); info["model_probes"] += inf["model_probes"]
+            for name, sched in conc_windows.subsample(rng, sw, WINDOW_PER_TEMPLATE if quick else WINDOW_PER_TEMPLATE_THOROUGH):
+                R.append({"id": "%s_%s" % (tag, name), "cfg": cfg, "threads": threads, "sched": sched, "kind": "window-mixed"})
+    return P, R, info
+
+
+def pop_phase_cases(ctx, impl, P):
+    """runs the push-phase cases on the real code and appends, to the exact sequence of thread choices of each run, a
+    pop-only phase of one more thread (it starts after the last push returned: no push overlaps a pop)"""
+    cf = os.path.join(ctx.work, "windows_p.txt")
+    conc_check.write_cases(cf, P)
+    rc, out = vcheck.sh([impl, cf], timeout=900)
+    logs = conc_check.parse_logs(out)
+    Q = []
+    for c in P:
+        i = logs.get(c["id"])
+        if i is None or i["end"] != "finished":
+            continue
+        choices = [int(l.split(" ")[0]) for l in i["lines"] if l.split(" ")[1] != "ev"]
+        k = len(c["threads"])
+        Q.append({"id": c["id"] + "_q", "cfg": c["cfg"], "threads": c["threads"] + [[[2] for _ in range(c["pops"])]],
+                  "sched": choices + [k] * (STEPS_PER_OP * c["pops"] + 5), "kind": "window-push-then-pop", "push_phase_steps": len(choices)})
+    return Q
+
+
+def waited_pushes(lines):
+    """pushes that went round the 'parent holds another pusher's in-flight item: back off and look again' branch of
+    heapify_after_push: the same (parent, item) pair of node locks taken twice in a row by one thread"""
+    n = 0
+    last = {}; prev = {}
+    for l in lines:
+        t = l.split(" ")
+        if len(t) < 3:
+            continue
+        tid = t[0]
+        if t[1] == "ev":
+            if t[2].startswith("inv_"):
+                last[tid] = []; prev[tid] = None
+            continue
+        if t[1] == "xchg" and len(t) >= 4 and t[3] == "1" and tid in last:
+            last[tid].append(t[2])
+            if len(last[tid]) == 2:
+                pair = tuple(last[tid])
+                if prev.get(tid) == pair:
+                    n += 1; prev[tid] = None
+                else:
+                    prev[tid] = pair
+                last[tid] = []
+        elif t[1] == "st" and tid in last and len(last[tid]) == 1:
+            last[tid] = []
+    return n
 
 
 # ---------------------------------------------------------------------------------------------------
@@ -307,7 +463,7 @@ def public_case(c):
     return {k: c[k] for k in ("id", "cfg", "threads", "sched")}
 
 
-def evaluate(ctx, model, impl, lin, cases, tag, stats):
+def evaluate(ctx, model, impl, lin, cases, tag, stats, keep=None):
     """run cases on both sides; returns (first divergence or None, list of (what, case, detail))"""
     rc1, mlog, rc2, ilog, raw = conc_check.run_both(ctx, model, impl, cases, tag=tag, fuel=STEP_FUEL)
     if os.environ.get("VERIF_VERBOSE"): ctx.log("%s: %d cases run on model and implementation" % (tag, len(cases)))
@@ -350,6 +506,8 @@ def evaluate(ctx, model, impl, lin, cases, tag, stats):
         bad, h, ops = monitors(c, i)
         for what, detail in bad:
             found.append((what, c, detail))
+        if keep is not None:
+            keep["pushes_that_waited_for_an_in_flight_item"] = keep.get("pushes_that_waited_for_an_in_flight_item", 0) + waited_pushes(i["lines"])
         key = hashlib.sha256("\n".join(mg["lines"]).encode()).hexdigest()
         stats["shapes"].add(key)
         spun = any(l.split(" ")[1] == "ld" for l in mg["lines"])
@@ -443,6 +601,35 @@ def run(ctx):
     finish_phase_schedules(ctx, model, gen)
     cases += gen
     first_div, found = evaluate(ctx, model, impl, lin, cases, "cases", stats)
+    # model-guided window schedules: push-phase cases P, the same followed by a pop-only phase (Q), pop-phase cases
+    t_w = os.times()
+    wP, wR, winfo = gen_window_cases(ctx, model, ctx.rng.fork(), not ctx.thorough())
+    wQ = pop_phase_cases(ctx, impl, wP)
+    wcases = wP + wQ + wR
+    wstats = new_stats()
+    div_w, found_w = evaluate(ctx, model, impl, lin, wcases, "windows", wstats, keep=winfo)
+    t_w2 = os.times()
+    winfo.update({"cases": len(wcases), "push_phase_cases": len(wP), "push_then_pop_cases": len(wQ), "pop_phase_and_mixed_cases": len(wR),
+                  "cpu_s": round((t_w2.user + t_w2.system + t_w2.children_user + t_w2.children_system) - (t_w.user + t_w.system + t_w.children_user + t_w.children_system), 1),
+                  "ran": wstats["ran"], "diverged_from_model": wstats["diverged"], "rejected_by_monitors_or_lincheck": len(found_w),
+                  "cases_with_a_lock_found_taken": len(wstats["contended"]), "lincheck": wstats["lincheck"],
+                  "histories_with_push_pop_overlap": wstats["overlapping_histories"], "failed_cas_events": 0,
+                  "note": "MSPriorityQueue has no CAS: the rare paths are a lock found taken (TATAS load) and a pusher waiting for another pusher's in-flight item"})
+    ctx.log("window schedules: %d cases (%d enumerated; %d push-phase, %d push-then-pop, %d pop-phase / mixed), %d with a lock found taken, %d pushes waited for an in-flight item, lincheck %s, %d rejected, %d diverged, cpu %.1fs" % (
+        len(wcases), winfo["enumerated"], len(wP), len(wQ), len(wR), len(wstats["contended"]), winfo.get("pushes_that_waited_for_an_in_flight_item", 0),
+        wstats["lincheck"], len(found_w), wstats["diverged"], winfo["cpu_s"]))
+    for k_ in ("ran", "steps", "diverged", "push_full", "model_stopped", "pop_empty", "with_equal_priorities", "lin_concurrent", "overlapping_histories"):
+        stats[k_] += wstats[k_]
+    stats["shapes"] |= wstats["shapes"]; stats["contended"] |= wstats["contended"]
+    for k_ in ("ops", "by_cap", "by_variant", "by_kind", "lincheck"):
+        for a_, b_ in wstats[k_].items():
+            stats[k_][a_] = stats[k_].get(a_, 0) + b_
+    for k_ in ("crash", "hang", "nonpow2"):
+        if k_ in wstats:
+            stats[k_] = stats.get(k_, 0) + wstats[k_]
+    cases += wcases
+    first_div = first_div or div_w
+    found += found_w
     report_found(ctx, found)
     if first_div is not None and not found:
         # the correspondence broke and no monitor fired: enlarge the search for a concrete failure
@@ -491,7 +678,7 @@ def run(ctx):
         "evaluations": len(cases), "distinct_nontrivial": len(stats["contended"]),
         "rule": "program x schedule pairs on MSPriorityQueue (1-4 threads, 1-4 push/pop operations each [single-thread programs up to 2*cap+7], "
                 "capacities 1,3,7,15, priorities from 0..k-1 with k in 1..4 so equal priorities are frequent; schedules uniform / bursty / run-one-then-switch, "
-                "sequential, and phase-structured [pushers run to completion, then poppers]); distinct = distinct model event logs; "
+                "sequential, and phase-structured [pushers run to completion, then poppers]) plus model-guided window schedules (templates: set-up pushes, 2-3 concurrent pushers on one heap path with the lower priority larger than the upper in-flight one, then a pop-only phase; concurrent poppers after a push-only set-up; see window_schedules); distinct = distinct model event logs; "
                 "non-trivial = some thread found a lock taken and spun (load in the TATAS loop)",
         "distinct_event_logs": len(stats["shapes"]), "impl_steps_compared": stats["steps"], "diverged": stats["diverged"],
         "traces_validated_against_impl": stats["ran"] - stats["diverged"], "corpus_cases": ncorpus,
@@ -503,7 +690,8 @@ def run(ctx):
         "histories_without_push_pop_overlap_decided_by_lincheck": stats["lincheck"],
         "of_which_with_concurrent_operations": stats["lin_concurrent"],
         "histories_with_push_pop_overlap(conservation only)": stats["overlapping_histories"],
-        "samples": [public_case(c) for c in cases[ncorpus:ncorpus + 2]],
+        "samples": [public_case(c) for c in cases[ncorpus:ncorpus + 2]] + [public_case(c) for c in (wQ[:1] + wR[:1])],
+        "window_schedules": winfo,
         "modelled": "cds::intrusive::MSPriorityQueue push/pop/heapify_after_push/heapify_after_pop + bit_reverse_counter inc/dec; "
                     "cds::container::MSPriorityQueue runs the same atomic accesses (checked by the same correspondence)",
         "fc_part_ran": fc_ran, "fc": fc_stats,
